@@ -357,6 +357,24 @@ pub fn check_c15(rep: &mut Report, thorough: bool) {
     }
     let wreplace = |name: &str, vals: Vec<&str>| -> Vec<Tag> { wtags.iter().map(|t| if t.as_slice()[0] == name { Tag::parse(std::iter::once(name.to_string()).chain(vals.iter().map(|s| s.to_string()))).unwrap() } else { t.clone() }).collect() };
     wm.push(("encoding-hex".into(), mk_rumor(wreplace("encoding", vec!["hex"]), &rumor.content, rumor.kind)));
+    // ambiguous encoding declarations: a second encoding tag with another value (either order), other spellings, extra values
+    {
+        let enc = |v: &str| Tag::parse(["encoding".to_string(), v.to_string()]).unwrap();
+        let without: Vec<Tag> = wtags.iter().filter(|t| t.as_slice()[0] != "encoding").cloned().collect();
+        for (label, encs) in [
+            ("encoding-hex-then-base64", vec![enc("hex"), enc("base64")]),
+            ("encoding-base64-then-hex", vec![enc("base64"), enc("hex")]),
+            ("encoding-uppercase", vec![enc("BASE64")]),
+            ("encoding-mixed-case", vec![enc("Base64")]),
+            ("encoding-padded", vec![enc(" base64")]),
+            ("encoding-base64url", vec![enc("base64url")]),
+            ("encoding-empty", vec![enc("")]),
+        ] {
+            let mut t = without.clone();
+            t.extend(encs);
+            wm.push((label.to_string(), mk_rumor(t, &rumor.content, rumor.kind)));
+        }
+    }
     wm.push(("relays-invalid-url".into(), mk_rumor(wreplace("relays", vec!["not a url"]), &rumor.content, rumor.kind)));
     wm.push(("e-empty".into(), mk_rumor(wreplace("e", vec![""]), &rumor.content, rumor.kind)));
     wm.push(("wrong-kind".into(), mk_rumor(wtags.clone(), &rumor.content, Kind::MlsGroupMessage)));
@@ -390,7 +408,15 @@ pub fn check_c15(rep: &mut Report, thorough: bool) {
     let gid = res.group.mls_group_id.clone();
     with_mdk!(admin, m => {
         let mm = m.media_manager(gid.clone());
-        for (mime, name, data) in [("text/plain", "a.txt", b"hello".to_vec()), ("application/pdf", "doc.pdf", vec![1u8; 100]), ("application/octet-stream", "x.bin", vec![])] {
+        for (mime, name, data) in [
+            ("text/plain", "a.txt", b"hello".to_vec()),
+            ("application/pdf", "doc.pdf", vec![1u8; 100]),
+            ("application/octet-stream", "x.bin", vec![]),
+            // values with inner white space and non-ASCII characters survive the tag
+            ("text/plain", "holiday notes 2024.txt", b"x".to_vec()),
+            ("text/plain", "two  spaces.txt", b"x".to_vec()),
+            ("image/png", "gr\u{00fc}\u{00df}e \u{1f600}.png", vec![7u8; 33]),
+        ] {
             match mm.encrypt_for_upload(&data, mime, name) {
                 Ok(up) => {
                     let tag = mm.create_imeta_tag(&up, "https://blossom.example/abc");
